@@ -15,6 +15,18 @@ CLAIMED = {
    text="Bounded symbolic model checking of the real CalcTimeout: base symbolic in [1ns,2^62ns], views 0..70 as concrete cases and all views >= 71 as one symbolic class; assertions: result > 0, = base*2^view while that fits in int64, = the saturated maximum otherwise, never above the maximum, and CalcTimeout(view-1) <= CalcTimeout(view) for every view >= 1 (monotone by transitivity). The timer/Stop race, 'not before the timeout' and eventual delivery clauses are runtime-scheduler properties and are outside the claim.",
    note="Trusted: gosym interpreter, math.Pow(2,y) summary (native for concrete y; >= 2^64 for symbolic y >= 64), amd64 float->int conversion model, cvc5/z3.",
    design="6/C19"),
+ "C02": dict(
+   text="Bounded symbolic model checking of the real WorkerLoop.ValidateBlockConsensus (and GetMemberIdsFromBlockProof). (i) Proofs built with the real BlockProofBuilder where every field is symbolic: type tag, instance, height, view, hash, 0..5 signer ids, per-signer signature validity, seed signature, block, previous proof, soft/strict mode, committee weights (64-bit) and membership errors; acceptance must imply each conjunct of the reference predicate (COMMIT type, instance, height, commitment, every signature valid, members, pairwise distinct, weight >= Q resp. > f computed independently, seed signature). (ii) Fully symbolic proof byte strings (<=12 quick / <=24 thorough): no panic escapes, acceptance implies the predicate on the parsed view.",
+   note="Trusted: gosym interpreter; ideal signature registry and block-commitment stubs; SHA-256 seed derivation computed exactly on the concrete previous seed signature; committee of 4.",
+   design="6/C02"),
+ "C12": dict(
+   text="Bounded symbolic model checking of the real message entry path: fully symbolic content bytes (length <=16 quick / <=24 thorough, with/without block) go through one iteration of the real MainLoop.run in a channel model (the deferred worker.interrupt() is interpreted, so a main-loop panic shows up as the permanent wedge the property names) and then through one iteration of the real WorkerLoop.Run (filters and term handlers). Assertion: no panic escapes either loop. ValidateBlockConsensus / GetMemberIdsFromBlockProof on arbitrary bytes are decided by the C02 check.",
+   note="Trusted: gosym interpreter and its channel/select model (single interpreted thread; harness plays the sender); membuffers unsafe accessors modelled as little-endian reads with over-read detection.",
+   design="6/C12"),
+ "C20": dict(
+   text="Bounded symbolic model checking of the wire round trip: the real MessageFactory builds each of the five message types (VIEW_CHANGE with/without prepared proof of 0..3 PREPAREs, NEW_VIEW re-encoding 0..4 votes through ExtractConfirmationsFromViewChangeMessages) and block proofs from 1..4 commits, with all field contents symbolic; ToConsensusRawMessage -> ToConsensusMessage must give back equal type, instance, height, view, hash, sender, nested proof/vote fields, identical raw bytes, and every signature must still verify over the re-read bytes. Equalities are decided as term identities for all values at once.",
+   note="Trusted: gosym interpreter (term rewriting of little-endian split/recompose is part of the engine), ideal signature registry. Field lengths limited to {0,1,2,3,4,5,8,32}.",
+   design="6/C20"),
 }
 
 NOT_APPLICABLE = {
